@@ -401,8 +401,13 @@ class SingleFile(Part):
         self.tier, self.seed = tier, seed
 
     def cases(self):
-        return [{"src": s, "out": o, "feat": f} for s in ("a.cfg", "b c.cfg", "ü-é.cfg", "bad")
-                for o in ("absent", "exists-file", "is-dir", "nested-absent") for f in FEATURES]
+        out = [{"src": s, "out": o, "feat": f} for s in ("a.cfg", "b c.cfg", "ü-é.cfg", "bad")
+               for o in ("absent", "exists-file", "is-dir", "nested-absent") for f in FEATURES]
+        # the input file's own name is never a reason to skip it: hidden, backup-style, dash-led, extensionless
+        out += [{"src": "a.cfg", "base": b, "out": o, "feat": f}
+                for b in (".running-config", ".a.cfg", "a.cfg~", "#a.cfg#", "-n.cfg", " lead.cfg", "noext", "..cfg", "a.CFG")
+                for o in ("absent", "hidden-name") for f in FEATURES[:2]]
+        return out
 
     def run(self, case):
         from netconan.anonymize_files import anonymize_files
@@ -410,11 +415,13 @@ class SingleFile(Part):
         res = Res()
         root = seams.scratch_dir("c16s")
         try:
-            src = os.path.join(root, "in-" + case["src"])
+            src = os.path.join(root, case.get("base") or ("in-" + case["src"]))
             data = BAD_BYTES if case["src"] == "bad" else CONTENT[case["src"]].encode()
             with open(src, "wb") as f:
                 f.write(data)
             outp = os.path.join(root, "o", "deep", "result.cfg") if case["out"] == "nested-absent" else os.path.join(root, "result.cfg")
+            if case["out"] == "hidden-name":
+                outp = os.path.join(root, ".result")
             if case["out"] == "exists-file":
                 with open(outp, "w") as f:
                     f.write("old\n")
